@@ -195,6 +195,52 @@ def lm_stream(ctx, hexe, dexe, n_cases, size, want=("oracle", "struct", "spec"),
     return found
 
 
+KEY_UNKB = "blank-based-on-hallucinated-unk"
+
+
+def unk_basis_case(ctx, hexe, dexe):
+    """Fixed demonstration of the known finding `blank-based-on-hallucinated-unk` (corpus/C01_blank_on_hallucinated_unk.json):
+    only the word scored through the blank `b <unk>` may deviate, and only by exactly +100 (the zeroed unigram slot);
+    everything else in the case must agree with the oracle."""
+    import json as _json
+    rep = _json.load(open(os.path.join(os.path.dirname(os.path.dirname(os.path.abspath(__file__))), "corpus",
+                                       "C01_blank_on_hallucinated_unk.json")))
+    work = fresh_scratch("c01_unkb_%d" % os.getpid())
+    path = os.path.join(work, "unkb.arpa")
+    open(path, "w").write(rep["arpa"])
+    queries = [("N", ["b", "oov"]), ("N", ["b", "<unk>"]), ("N", ["zzz"]), ("N", ["a", "b", "oov"]), ("B", ["a", "b"])]
+    ops = ["arpa %s classes=PRTAQB mult=4 buckets=8,4" % path] + ["q %s %s" % (st, " ".join(ws)) for st, ws in queries]
+    (rc1, o1, e1), (rc2, o2, e2) = lmq.run_both(hexe, dexe, ops)
+    if rc1 != 0 or rc2 != 0 or len(o1) < len(ops) or len(o2) < len(ops):
+        ctx.violation("known-finding case could not be run", {"ops": ops, "stderr": (e1 + e2)[-1000:]}, no_input=True)
+        return True
+    found = False
+    seen = 0
+    for qi, (st, ws) in enumerate(queries):
+        M = lmq.parse_model_line(o2[1 + qi])
+        I = lmq.parse_impl_line(o1[1 + qi])
+        for c, R in I.items():
+            for pos, (ri, rm) in enumerate(zip(R, M)):
+                ctx.count(("unkb", c, qi, pos), nontrivial=True)
+                for r in (ri.F, ri.G):
+                    d = lmq.fbits(r["prob"]) - rm.spec
+                    if abs(d) <= lmq.tol(rm):
+                        continue
+                    in_class = ws[pos] in ("oov", "<unk>") and pos >= 1 and ws[pos - 1] == "b" and len(ws) == 2 and abs(d - 100) < 1e-3
+                    if in_class:
+                        seen += 1
+                        ctx.violation("%s scores a word through a blank based on the hallucinated <unk> as %g instead of %g" %
+                                      (lmq.NAMES[c], float(lmq.fbits(r["prob"])), float(rm.spec)),
+                                      {"replay": "corpus/C01_blank_on_hallucinated_unk.json", "query": [st, ws], "cls": c}, key=KEY_UNKB)
+                    else:
+                        ctx.violation("known-finding case: %s deviates outside the recorded class (query %s pos %d: %g vs %g)" %
+                                      (lmq.NAMES[c], ws, pos, float(lmq.fbits(r["prob"])), float(rm.spec)),
+                                      {"arpa": rep["arpa"], "query": [st, ws], "cls": c})
+                        found = True
+    ctx.notes["unk_basis_known_finding_observations"] = seen
+    return found
+
+
 def setup(ctx, pid, required, extra_targets=()):
     problems, consts = flow.proof_phase(ctx, pid, probe="probe_C01.cc", required=required,
                                         targets=["Properties.%s" % pid] + list(extra_targets), drivers=["drv_C01"])
@@ -212,6 +258,7 @@ def run(ctx):
         return
     n = 60 if ctx.tier == "quick" else 1500
     found = lm_stream(ctx, hexe, dexe, n, "small" if ctx.tier == "quick" else "medium")
+    found = unk_basis_case(ctx, hexe, dexe) or found
     ctx.cov["rule"] = ("lm-query: one evaluation = one scored word (compared for each of the six model classes and for "
                        "FullScore/FullScoreForgotState/GetState); a case (ARPA bytes + queries) is distinct by content and "
                        "non-trivial when some word matched an n-gram of length >= 2 or charged a back-off")
